@@ -64,3 +64,20 @@ Qed.
 Lemma prefee_wrapper bps maxfee post pre :
   pre_fee_deposit_amount bps maxfee post = Ok pre -> calculate_pre_fee_amount bps maxfee post = Ok pre.
 Proof. unfold pre_fee_deposit_amount. destruct (calculate_pre_fee_amount bps maxfee post); intros H; [assumption | discriminate]. Qed.
+
+(* with a pending fee change: the schedule used for the gross-up is the one charged in that epoch *)
+Lemma prefee_covers_every_epoch :
+  forall s epoch post pre fee,
+  0 <= fs_old_bps s <= 10000 -> 0 <= fs_new_bps s <= 10000 -> 0 <= fs_old_max s -> 0 <= fs_new_max s ->
+  0 <= post -> 0 <= pre ->
+  pre_fee_deposit_amount_at s epoch post = Ok pre -> calculate_epoch_fee s epoch pre = Ok fee ->
+  post <= pre - fee /\ 0 <= fee.
+Proof.
+  intros s epoch post pre fee Ho Hn Hom Hnm Hp Hpre H1 H2.
+  unfold pre_fee_deposit_amount_at, pre_fee_deposit_amount, calculate_epoch_fee, get_epoch_fee in H1, H2.
+  destruct (fs_new_epoch s <=? epoch); cbn [fst snd] in H1, H2.
+  - destruct (calculate_pre_fee_amount (fs_new_bps s) (fs_new_max s) post) as [v|e] eqn:E; [|discriminate].
+    apply Ok_inj in H1; subst v. exact (prefee_covers _ _ _ _ _ Hn Hnm Hp Hpre E H2).
+  - destruct (calculate_pre_fee_amount (fs_old_bps s) (fs_old_max s) post) as [v|e] eqn:E; [|discriminate].
+    apply Ok_inj in H1; subst v. exact (prefee_covers _ _ _ _ _ Ho Hom Hp Hpre E H2).
+Qed.
